@@ -668,7 +668,7 @@ sink_instance!(c04_buffered_flush, Some(4), 0);
 // BUDGET GATE: State::shutdown drops the Result of BufWriter::flush (`.ok()`): the io::Error drop glue does not terminate (> 12 GB); not registered.
 // ... the same after State::shutdown().
 sink_instance!(c04_buffered_shutdown, Some(4), 1);
-// @verif prop=C04,C15 tier=quick timeout=900 bounds=direct-writer(no-buffer),2-records-of-symbolic-length<=5,shutdown()
+// @verif prop=C04,C15,C11 tier=quick timeout=900 bounds=direct-writer(no-buffer),2-records-of-symbolic-length<=5,shutdown()
 // Direct mode: every record is in the sink as soon as write_buffer returned; the delivered byte sequence equals the reference stream - the same reference the buffered instances are decided against, so the contents do not depend on the write mode.
 sink_instance!(c04_direct_shutdown, None, 1);
 
@@ -792,3 +792,304 @@ init_instance!(c06_init_numbers_direct, true);
 // @verif prop=C06,C01 tier=quick timeout=900 bounds=Naming::Numbers,append-symbolic
 // Start of a run with Numbers: the index is asked from index_for_rcurrent with "unknown" and rotate = !append (without append the earlier current file is rotated away before rCURRENT is opened, with append it is continued), and rCURRENT is what gets opened.
 init_instance!(c06_init_numbers, false);
+
+// ================================================================================================
+// Rotation half for the other namings (glue level; their leaves by contract).
+//   NumbersDirect: index += 1, the file named number_infix(index) is opened.
+//   Timestamps with current infix: the closed file is renamed by creation_timestamp_of_currentfile
+//     with the timestamp remembered *for that file* (its start), and the state remembers the start
+//     of the new file.
+//   Timestamps direct: the new file is named after the current clock reading (collision-free).
+fn rec_number_infix(idx: u32) -> String {
+    vs::ev_push(0x400 | (idx & 0xff));
+    let mut s = String::with_capacity(2);
+    s.push('r');
+    s.push('N');
+    s
+}
+fn rec_ts_current(_c: &FileLogWriterConfig, infix: &str, rotate: bool, o_date: Option<&DateTime<Local>>, _f: &InfixFormat) -> Result<DateTime<Local>, std::io::Error> {
+    use chrono::Timelike;
+    vs::ev_push(1);
+    // which start time is used to name the rotated file: second-of-minute of the passed date (+1), 0 = none passed
+    vs::cell_set(11, o_date.map_or(0, |d| d.second() as u64 + 1));
+    vs::cell_set(12, if rotate { 1 } else { 2 });
+    vs::cell_set(13, if infix.as_bytes() == b"rCURRENT" { 1 } else { 0 });
+    if vs::cell_get(0) == 1 {
+        return Err(std::io::Error::from_raw_os_error(13));
+    }
+    Ok(stub_now()) // start of the new current file = next clock value
+}
+fn rec_infix_from_ts(ts: &DateTime<Local>, _utc: bool, _f: &InfixFormat) -> String {
+    use chrono::Timelike;
+    vs::cell_set(14, ts.second() as u64 + 1);
+    let mut s = String::with_capacity(2);
+    s.push('r');
+    s.push('S');
+    s
+}
+fn rec_collision_free(_fs: &FileSpec, infix: &str) -> String {
+    vs::ev_push(0x500 | infix.len() as u32);
+    let mut s = String::with_capacity(3);
+    s.push_str(infix);
+    s.push('x');
+    s
+}
+fn naming_state_with(ns: NamingState, max_size: u64, current_size: u64) -> State {
+    let cfg = mk_config(FileSpec::default().directory("d").basename("b").suffix("l").suppress_timestamp(), false, WriteMode::Direct);
+    State {
+        config: cfg,
+        inner: Inner::Active(
+            Some(RotationState {
+                naming_state: ns,
+                roll_state: RollState::Size { max_size, current_size },
+                cleanup: Cleanup::Never,
+                o_cleanup_thread_handle: None,
+            }),
+            Box::new(RecW { id: 0 }),
+            PathBuf::from("c"),
+        ),
+    }
+}
+macro_rules! naming_step_harness {
+    ($u:literal, fn $name:ident() $body:block) => {
+        #[kani::proof]
+        #[kani::unwind($u)]
+        #[kani::stub(verif_support::reexp::catch_unwind, verif_support::stub_cu)]
+        #[kani::stub(chrono::Local::now, stub_now)]
+        #[kani::stub(get_creation_timestamp, stub_creation_ts)]
+        #[kani::stub(numbers::index_for_rcurrent, stub_index_for_rcurrent)]
+        #[kani::stub(numbers::number_infix, rec_number_infix)]
+        #[kani::stub(open_log_file, stub_open_log_file)]
+        #[kani::stub(list_and_cleanup::remove_or_compress_too_old_logfiles, stub_cleanup)]
+        #[kani::stub(timestamps::creation_timestamp_of_currentfile, rec_ts_current)]
+        #[kani::stub(timestamps::infix_from_timestamp, rec_infix_from_ts)]
+        #[kani::stub(crate::FileSpec::collision_free_infix_for_rotated_file, rec_collision_free)]
+        #[kani::stub(crate::util::eprint_err, stub_eprint_err_ev)]
+        #[kani::stub(State::initialize, cut_initialize)]
+        fn $name() $body
+    };
+}
+
+// @verif prop=C01,C08 tier=quick timeout=900 bounds=NumbersDirect(idx<1000),Size{max,cur}-all-u64,force-symbolic,no-fault
+// Rotation half, NumbersDirect: rotates iff forced or size > N; the next file is number_infix(index+1) - one above the file written so far -, it is opened, the old writer released, cleanup asked; index+1 and size 0 afterwards.
+naming_step_harness! { 8,
+fn c01_rotate_numbers_direct() {
+    vs::link_all();
+    vs::cell_set(0, 0);
+    let idx: u32 = kani::any();
+    kani::assume(idx < 200);
+    let max_size: u64 = kani::any();
+    let current_size: u64 = kani::any();
+    let force: bool = kani::any();
+    let mut state = naming_state_with(NamingState::NumbersDirect(idx), max_size, current_size);
+    let r = state.mount_next_linewriter_if_necessary(force);
+    let ok = r.is_ok();
+    std::mem::forget(r);
+    let rotate = force || current_size > max_size;
+    assert!(ok);
+    if rotate {
+        assert!(vs::ev_len() == 4);
+        assert!(vs::ev_get(0) == (0x400 | (idx + 1)) && vs::ev_get(1) == 2 && vs::ev_get(2) == 0x300 && vs::ev_get(3) == 3);
+    } else {
+        assert!(vs::ev_len() == 0);
+    }
+    if let Inner::Active(Some(rs), _, _) = &state.inner {
+        match (&rs.naming_state, &rs.roll_state) {
+            (NamingState::NumbersDirect(i2), RollState::Size { current_size: c2, .. }) => {
+                assert!(*i2 == if rotate { idx + 1 } else { idx });
+                assert!(*c2 == if rotate { 0 } else { current_size });
+            }
+            _ => unreachable!(),
+        }
+    }
+    kani::cover!(rotate && !force, "rotation by size");
+    kani::cover!(!rotate, "no rotation");
+    std::mem::forget(state);
+}
+}
+
+// @verif prop=C09,C01 tier=quick timeout=900 bounds=Timestamps-with-rCURRENT,file-start-second-symbolic,clock-later,force-or-size
+// Rotation half, Timestamps with current infix: the closed file is renamed using the timestamp remembered as *its own start* (so timestamp-named files carry the time at which their content was started), the state then remembers the start of the new current file, rCURRENT is re-opened.
+naming_step_harness! { 12,
+fn c09_rotate_timestamps_rcurrent() {
+    vs::link_all();
+    vs::cell_set(0, 0);
+    let s0: u32 = kani::any();
+    kani::assume(s0 < 40);
+    let started = vs::Instant { y: 2024, mo: 2, d: 29, h: 23, mi: 59, s: s0, off: 3600 };
+    let later = vs::Instant { y: 2024, mo: 2, d: 29, h: 23, mi: 59, s: s0 + 7, off: 3600 };
+    vs::clock_push(later);
+    let max_size: u64 = kani::any();
+    let current_size: u64 = kani::any();
+    let force: bool = kani::any();
+    let ns = NamingState::Timestamps { current_timestamp: dt_of(&started), the_current_infix: Some("rCURRENT".to_string()), infix_format: InfixFormat::Std };
+    let mut state = naming_state_with(ns, max_size, current_size);
+    let r = state.mount_next_linewriter_if_necessary(force);
+    let ok = r.is_ok();
+    std::mem::forget(r);
+    let rotate = force || current_size > max_size;
+    assert!(ok);
+    if rotate {
+        assert!(vs::ev_len() == 4 && vs::ev_get(0) == 1 && vs::ev_get(1) == 2 && vs::ev_get(2) == 0x300 && vs::ev_get(3) == 3);
+        // the rotated file is named after the start of its own content, the rename is requested, for rCURRENT
+        assert!(vs::cell_get(11) == s0 as u64 + 1 && vs::cell_get(12) == 1 && vs::cell_get(13) == 1);
+    } else {
+        assert!(vs::ev_len() == 0);
+    }
+    if let Inner::Active(Some(rs), _, _) = &state.inner {
+        use chrono::Timelike;
+        match &rs.naming_state {
+            NamingState::Timestamps { current_timestamp, the_current_infix, .. } => {
+                assert!(the_current_infix.is_some());
+                // afterwards the state remembers the start of the *new* file
+                assert!(current_timestamp.second() == if rotate { s0 + 7 } else { s0 });
+            }
+            _ => unreachable!(),
+        }
+    }
+    kani::cover!(rotate, "rotated");
+    kani::cover!(!rotate, "not rotated");
+    std::mem::forget(state);
+}
+}
+
+// @verif prop=C09,C01 tier=quick timeout=900 bounds=Timestamps-direct(no-current-infix),clock-symbolic-second,force-or-size
+// Rotation half, direct timestamps: the new file is named after the clock reading at the rotation (made collision-free against existing names) and that reading is remembered as its start.
+naming_step_harness! { 12,
+fn c09_rotate_timestamps_direct() {
+    vs::link_all();
+    vs::cell_set(0, 0);
+    let s0: u32 = kani::any();
+    kani::assume(s0 < 40);
+    let started = vs::Instant { y: 2024, mo: 2, d: 29, h: 23, mi: 59, s: s0, off: 0 };
+    let now = vs::Instant { y: 2024, mo: 2, d: 29, h: 23, mi: 59, s: s0 + 3, off: 0 };
+    vs::clock_push(now);
+    let max_size: u64 = kani::any();
+    let current_size: u64 = kani::any();
+    let force: bool = kani::any();
+    let ns = NamingState::Timestamps { current_timestamp: dt_of(&started), the_current_infix: None, infix_format: InfixFormat::Std };
+    let mut state = naming_state_with(ns, max_size, current_size);
+    let r = state.mount_next_linewriter_if_necessary(force);
+    let ok = r.is_ok();
+    std::mem::forget(r);
+    let rotate = force || current_size > max_size;
+    assert!(ok);
+    if rotate {
+        // infix derived from the clock reading -> made collision free -> opened -> old writer released -> cleanup
+        assert!(vs::cell_get(14) == (s0 + 3) as u64 + 1);
+        assert!(vs::ev_len() == 4 && vs::ev_get(0) == (0x500 | 2) && vs::ev_get(1) == 2 && vs::ev_get(2) == 0x300 && vs::ev_get(3) == 3);
+    } else {
+        assert!(vs::ev_len() == 0);
+    }
+    if let Inner::Active(Some(rs), _, _) = &state.inner {
+        use chrono::Timelike;
+        match &rs.naming_state {
+            NamingState::Timestamps { current_timestamp, the_current_infix, .. } => {
+                assert!(the_current_infix.is_none());
+                assert!(current_timestamp.second() == if rotate { s0 + 3 } else { s0 });
+            }
+            _ => unreachable!(),
+        }
+    }
+    kani::cover!(rotate, "rotated");
+    std::mem::forget(state);
+}
+}
+
+// @verif prop=C09,C01 tier=quick timeout=900 bounds=NumbersRCurrent,Age::Second-and-AgeOrSize,file-start-and-now-symbolic-seconds-of-one-minute,sizes-all-u64
+// Rotation half with the age criterion: rotates iff the clock shows a later second than the one in which the current file was started (or, with AgeOrSize, the size limit is exceeded); afterwards the remembered start is that of the new file, so no rotation happens again within the same period.
+naming_step_harness! { 12,
+fn c09_rotate_by_age() {
+    vs::link_all();
+    vs::cell_set(0, 0);
+    let s0: u32 = kani::any();
+    let s1: u32 = kani::any();
+    kani::assume(s0 < 50 && s1 >= s0 && s1 < 55);
+    let started = vs::Instant { y: 2024, mo: 12, d: 31, h: 23, mi: 59, s: s0, off: -34200 };
+    let now = vs::Instant { y: 2024, mo: 12, d: 31, h: 23, mi: 59, s: s1, off: -34200 };
+    vs::clock_push(now); // read by the age test
+    vs::clock_push(now); // birth time of the new file
+    let with_size: bool = kani::any();
+    let max_size: u64 = kani::any();
+    let current_size: u64 = kani::any();
+    let created_at = dt_of(&started);
+    let roll = if with_size {
+        RollState::AgeOrSize { age: Age::Second, created_at, max_size, current_size }
+    } else {
+        RollState::Age { age: Age::Second, created_at }
+    };
+    let mut state = naming_state_with(NamingState::NumbersRCurrent(4), 0, 0);
+    if let Inner::Active(Some(rs), _, _) = &mut state.inner {
+        rs.roll_state = roll;
+    }
+    let r = state.mount_next_linewriter_if_necessary(false);
+    let ok = r.is_ok();
+    std::mem::forget(r);
+    let rotate = s1 != s0 || (with_size && current_size > max_size);
+    assert!(ok);
+    assert!(vs::ev_len() == if rotate { 4 } else { 0 });
+    if let Inner::Active(Some(rs), _, _) = &state.inner {
+        use chrono::Timelike;
+        match &rs.roll_state {
+            RollState::Age { created_at, .. } => {
+                assert!(!with_size);
+                assert!(created_at.second() == if rotate { s1 } else { s0 });
+            }
+            RollState::AgeOrSize { created_at, current_size: c2, .. } => {
+                assert!(with_size);
+                assert!(created_at.second() == if rotate { s1 } else { s0 });
+                assert!(*c2 == if rotate { 0 } else { current_size });
+            }
+            _ => unreachable!(),
+        }
+    }
+    kani::cover!(rotate && s1 != s0 && !with_size, "rotation by age");
+    kani::cover!(rotate && s1 == s0, "rotation by size within the same period");
+    kani::cover!(!rotate && with_size, "neither criterion met");
+    std::mem::forget(state);
+}
+}
+
+// ================================================================================================
+// C18: reopen_outputfile. OpenOptions::open is replaced by a model that records the path and hands
+// out a real std::fs::File over model descriptor 5; the real File / write_all code then runs down
+// to the libc `write` model (event 0x600 | fd<<4 | count).
+fn stub_oo_open<P: AsRef<Path>>(_o: &OpenOptions, path: P) -> std::io::Result<File> {
+    use std::os::unix::ffi::OsStrExt;
+    let b = path.as_ref().as_os_str().as_bytes();
+    vs::ev_push(0x700 | if b == b"c" { 1 } else { 0 });
+    Ok(vs::file_from_fd(5))
+}
+// @verif prop=C18 tier=probe timeout=900 bounds=Active-state(direct),record-lengths<=6-symbolic,reopen-succeeds
+// BUDGET GATE: does not finish (> 10 GB): the Err arm of `match OpenOptions::open(..)` binds and drops an io::Error; not registered, C18 stays not applicable.
+// reopen_outputfile: records written before go to the writer mounted before (the externally renamed file), the path that is re-opened is the original current path, the old writer is released, and records written afterwards go to the newly opened file - each exactly once, in order.
+#[kani::proof]
+#[kani::unwind(10)]
+#[kani::stub(verif_support::reexp::catch_unwind, verif_support::stub_cu)]
+#[kani::stub(chrono::Local::now, stub_now)]
+#[kani::stub(State::initialize, cut_initialize)]
+#[kani::stub(State::mount_next_linewriter_if_necessary, rec_mount_next_quiet)]
+#[kani::stub(crate::util::eprint_err, stub_eprint_err_ev)]
+#[kani::stub(std::fs::OpenOptions::open, stub_oo_open)]
+fn c18_reopen_switches_writer() {
+    vs::link_all();
+    vs::cell_set(0, 0);
+    let mut state = numbers_state(0, u64::MAX, 0);
+    let l1: usize = kani::any();
+    let l2: usize = kani::any();
+    kani::assume(l1 >= 1 && l1 <= 6 && l2 >= 1 && l2 <= 6);
+    let buf = [b'x'; 6];
+    std::mem::forget(state.write_buffer(&buf[..l1]));
+    let r = state.reopen_outputfile();
+    let ok = r.is_ok();
+    std::mem::forget(r);
+    assert!(ok);
+    std::mem::forget(state.write_buffer(&buf[..l2]));
+    assert!(vs::ev_len() == 4);
+    assert!(vs::ev_get(0) == (0x100 | l1 as u32)); // before: old writer (id 0)
+    assert!(vs::ev_get(1) == 0x701); // the original path is re-opened
+    assert!(vs::ev_get(2) == 0x300); // old writer released
+    assert!(vs::ev_get(3) == (0x600 | 5 << 4 | l2 as u32)); // after: the new file
+    kani::cover!(l1 == 6 && l2 == 1, "lengths 6 and 1");
+    std::mem::forget(state);
+}
